@@ -497,8 +497,27 @@ func checkC14(c *ctx) {
 // largeVectorMerge: a merge whose output has >= 1000 surviving vectors (the rebuilt index is of the
 // clustered class): every result must still be the true score of a vector of the document it names.
 func largeVectorMerge(c *ctx) string {
+	if bad := largeVectorMergeP(c, 600, 600, 5, 5, "", "", false); bad != "" {
+		return bad
+	}
+	// inputs holding >= 1000 vectors of which fewer than 1000 survive: the output's index is exact
+	if bad := largeVectorMergeP(c, 700, 500, 400, 0, "", "", false); bad != "" {
+		return bad
+	}
+	// a second generation: the >= 1000-vector output (vectors not of unit length, compressed index
+	// class) is merged again; its vectors must come through unchanged
+	return largeVectorMergeP(c, 620, 590, 7, 3, "dot_product", "memory-efficient", true)
+}
+
+func largeVectorMergeP(c *ctx, n1, n2, nd1, nd2 int, sim, opt string, remerge bool) string {
 	o := genVecOpts(c)
 	o.nVecFs = 1
+	if sim != "" {
+		o.sim["vec"] = sim
+	}
+	if opt != "" {
+		o.opt["vec"] = opt
+	}
 	dims := o.dims["vec"]
 	mk := func(id string, n int) (*segEnt, sx.V, error) {
 		var b zh.Batch
@@ -513,15 +532,27 @@ func largeVectorMerge(c *ctx) string {
 		}
 		return e, vecSpec(c, b), nil
 	}
-	e1, v1, err := mk("m", 600)
+	pick := func(n, k int) []uint64 {
+		var rv []uint64
+		seen := map[int]bool{}
+		for len(rv) < k {
+			if i := c.R.Intn(n); !seen[i] {
+				seen[i] = true
+				rv = append(rv, uint64(i))
+			}
+		}
+		sort.Slice(rv, func(i, j int) bool { return rv[i] < rv[j] })
+		return rv
+	}
+	e1, v1, err := mk("m", n1)
 	if err != nil {
 		return "build failed: " + err.Error()
 	}
-	e2, v2, err := mk("n", 600)
+	e2, v2, err := mk("n", n2)
 	if err != nil {
 		return "build failed: " + err.Error()
 	}
-	mc := &mergeCase{ins: []*segEnt{e1, e2}, drops: [][]uint64{{3, 77, 150, 301, 599}, {0, 10, 200, 400, 598}}, nilBM: []bool{false, false}, mode: 1026}
+	mc := &mergeCase{ins: []*segEnt{e1, e2}, drops: [][]uint64{pick(n1, nd1), pick(n2, nd2)}, nilBM: []bool{false, nd2 == 0}, mode: 1026}
 	spec, maps := specMerge(c, mc)
 	mv := ask(c, sx.L(sx.N(zh.ReqMergeVec), sx.L(v1, v2), maps))
 	if _, bad := sx.IsErr(mv); bad {
@@ -532,10 +563,34 @@ func largeVectorMerge(c *ctx) string {
 		return fmt.Sprintf("merge failed: %v", r.err)
 	}
 	defer r.seg.Close()
+	surv := n1 + n2 - nd1 - nd2
 	c.Case("large-vector-merge", true)
-	c.Count("merges_with_1000_or_more_surviving_vectors")
-	if bad := vectorQueries(c, r.seg, mv, spec.L[pNDocs].N, o, c.n(12, 100), "merge of 600 + 600 documents with 10 deletions (1190 surviving vectors, clustered index), re-opened"); bad != "" {
+	if surv >= 1000 {
+		c.Count("merges_with_1000_or_more_surviving_vectors")
+	} else {
+		c.Count("merges_of_1000_or_more_vectors_with_fewer_than_1000_survivors")
+	}
+	what := fmt.Sprintf("merge of %d + %d documents (one vector each, field options %s/%s) with %d + %d deletions (%d surviving vectors), re-opened", n1, n2, o.sim["vec"], o.opt["vec"], nd1, nd2, surv)
+	if bad := vectorQueries(c, r.seg, mv, spec.L[pNDocs].N, o, c.n(12, 100), what); bad != "" {
 		return bad
+	}
+	if remerge {
+		e3 := &segEnt{seg: r.seg, spec: spec, n: spec.L[pNDocs].N, prov: "merged", depth: 1}
+		mc2 := &mergeCase{ins: []*segEnt{e3}, drops: [][]uint64{pick(surv, 4)}, nilBM: []bool{false}, mode: 1026}
+		spec2, maps2 := specMerge(c, mc2)
+		mv2 := ask(c, sx.L(sx.N(zh.ReqMergeVec), sx.L(mv), maps2))
+		if _, bad := sx.IsErr(mv2); bad {
+			mustH(fmt.Errorf("model rejected merge_vfields"))
+		}
+		r2 := runMerge(c, mc2)
+		if r2.err != nil || r2.seg == nil {
+			return fmt.Sprintf("second-generation merge failed: %v", r2.err)
+		}
+		defer r2.seg.Close()
+		c.Count("second_generation_merges_of_1000_or_more_vectors")
+		if bad := vectorQueries(c, r2.seg, mv2, spec2.L[pNDocs].N, o, c.n(12, 100), what+", that output merged again on its own with 4 deletions"); bad != "" {
+			return bad
+		}
 	}
 	for _, e := range []*segEnt{e1, e2} {
 		if sbb, ok := e.seg.(*zap.SegmentBase); ok {
@@ -633,8 +688,50 @@ func hugeVectorMerge(c *ctx) string {
 
 // ---------------- C15 ----------------
 
+// failedMergeBefore: a merge of two throw-away segments (other documents, other vectors) that fails
+// because the engine reports an error; the verified merge that follows must not be affected by it.
+// Returns a description for the replay ("" when the merge did not fail).
+func failedMergeBefore(c *ctx, o vecOpts) string {
+	var segs []segment.Segment
+	for _, p := range []string{"y", "z"} {
+		sb, _, err := zh.Build(genVecBatch(c, 3+c.R.Intn(6), p, o), 1026)
+		must(err)
+		segs = append(segs, sb)
+	}
+	defer func() {
+		for _, s := range segs {
+			s.(*zap.SegmentBase).Close()
+		}
+	}()
+	ops := []string{"ReconstructBatch", "AddWithIDs", "WriteIndexIntoBuffer", "IndexFactory", "ReadIndexFromBuffer"}
+	op, n := ops[c.R.Intn(len(ops))], 1+c.R.Intn(2)
+	faiss.Mu.Lock()
+	faiss.FailAt = map[string]int{op: n}
+	faiss.Calls = map[string]int{}
+	faiss.Mu.Unlock()
+	path := zh.TmpPath("c15f")
+	var err error
+	func() {
+		defer func() {
+			if r := recover(); r != nil {
+				err = fmt.Errorf("PANIC %v", r)
+			}
+		}()
+		_, _, err = zap.VerifMerge(segs, []*roaring.Bitmap{nil, nil}, path, 1026, nil, nil)
+	}()
+	faiss.Mu.Lock()
+	faiss.FailAt = map[string]int{}
+	faiss.Mu.Unlock()
+	os.Remove(path)
+	if err == nil {
+		return ""
+	}
+	c.Count("verified_merges_preceded_by_a_failed_merge")
+	return fmt.Sprintf("\nimmediately before it: a merge of two other freshly built segments (3..8 documents each, same field options) in which call #%d of %s of the engine fails; it returned %v", n, op, err)
+}
+
 func checkC15(c *ctx) {
-	c.Rule = "merge chains (depth <= 3) over segments with vector fields (fields present in only some inputs, inputs whose vectors are all deleted, as many deleted documents as the field has vectors, built / opened / merged inputs; one merge with 1190 surviving vectors) x deletion bitmaps {nil, empty, random, all}; the merged, re-opened segment is searched (exhaustive k and small k, with exclusions and filters) against the extracted merge_vfields (survivors' vectors under the new numbering); num_vectors statistic; a field whose vectors all died must have no index; engine accounting (every index created is released); non-trivial = >= 2 inputs with vectors and >= 2 surviving vectors"
+	c.Rule = "merge chains (depth <= 3) over segments with vector fields (fields present in only some inputs, inputs whose vectors are all deleted, as many deleted documents as the field has vectors, built / opened / merged inputs; merges of 600+600 documents with 1190 survivors, of 700+500 documents with 800 survivors (inputs above, output below the exact-index limit of 1000), and a dot_product/memory-efficient 620+590 merge whose output is merged again) x deletion bitmaps {nil, empty, random, all}; the merged, re-opened segment is searched (exhaustive k and small k, with exclusions and filters) against the extracted merge_vfields (survivors' vectors under the new numbering); num_vectors statistic; a field whose vectors all died must have no index; engine accounting (every index created is released); non-trivial = >= 2 inputs with vectors and >= 2 surviving vectors"
 	c.Assumptions = append(c.Assumptions, "stand-in engine (see C14)")
 	if bad := largeVectorMerge(c); bad != "" {
 		c.Violation("C15 "+bad, false)
@@ -763,16 +860,20 @@ func checkC15(c *ctx) {
 			c.Case(mc.describe(), len(mc.ins) >= 2 && nv >= 2)
 			c.CountN("surviving_vectors", nv)
 			c.Count(fmt.Sprintf("inputs=%d", len(mc.ins)))
+			failedFirst := ""
+			if c.R.Chance(3) {
+				failedFirst = failedMergeBefore(c, o)
+			}
 			r := runMerge(c, mc)
 			if r.err != nil || r.seg == nil {
-				c.Violation(fmt.Sprintf("C15 merge failed: %v\n%s", r.err, clip(mc.describe())), false)
+				c.Violation(fmt.Sprintf("C15 merge failed: %v\n%s%s", r.err, clip(mc.describe()), failedFirst), false)
 				return
 			}
 			if i == 1 && s == 0 {
 				c.Sample(map[string]interface{}{"merge": clip(mc.describe()), "merged_vector_fields": clip(mv.Pretty())})
 			}
 			if bad := vectorQueries(c, r.seg, mv, spec.L[pNDocs].N, o, 8, "merged and re-opened segment"); bad != "" {
-				c.Violation("C15 "+bad+"\nexpected vector fields of the merged segment: "+clip(mv.Pretty())+"\n"+clip(mc.describe()), false)
+				c.Violation("C15 "+bad+"\nexpected vector fields of the merged segment: "+clip(mv.Pretty())+"\n"+clip(mc.describe())+failedFirst, false)
 				return
 			}
 			// a field all of whose vectors died carries no index: a search with huge k finds nothing
